@@ -541,6 +541,8 @@ func ConvertSliceValueType(destTyp reflect.Type, v reflect.Value) (reflect.Value
 	elemUintType := UintKind(elemKind)
 
 	sl := reflect.MakeSlice(destTyp, v.Len(), v.Len())
+	// elements that refer to one generic map share one conversion of it
+	var mapsSeen map[_mapConversion]reflect.Value
 	var itemValue reflect.Value
 	for i := 0; i < v.Len(); i++ {
 		item := v.Index(i).Interface()
@@ -561,6 +563,11 @@ func ConvertSliceValueType(destTyp reflect.Type, v reflect.Value) (reflect.Value
 			sl.Index(i).SetInt(EnsureInt64(itemValue.Interface()))
 		case elemUintType:
 			sl.Index(i).SetUint(EnsureUint64(itemValue.Interface()))
+		case elemKind == reflect.Map && itemValue.IsValid() && UnpackPtrValue(itemValue).Kind() == reflect.Map:
+			if mapsSeen == nil {
+				mapsSeen = make(map[_mapConversion]reflect.Value)
+			}
+			sl.Index(i).Set(convertMapItemSeen(destTyp.Elem(), itemValue.Interface(), mapsSeen))
 		default:
 			SetValue(sl.Index(i), itemValue)
 		}
